@@ -42,9 +42,17 @@ def _case(args):
                 ann.append([q, ri, d, sorted(tid[x] for x in las)])
     rec['ann'] = ann
     # ---- the real front end
+    # a post-lexer that re-creates every token with shifted coordinates: what the parser is fed then differs from what the lexer last produced
+    from lark import Token
+    class _Shift:
+        always_accept = ()
+        def process(self, stream):
+            for t in stream:
+                yield Token(t.type, t.value, t.start_pos + 100, t.line + 10, t.column + 7, t.end_line + 10, t.end_column + 7, t.end_pos + 100)
+    shifted = rng.random() < 0.3
     try:
         with guarded(15):
-            p = Lark(g, parser='lalr', lexer=rng.choice(['basic', 'contextual']))
+            p = Lark(g, parser='lalr', lexer=rng.choice(['basic', 'contextual']), postlex=_Shift() if shifted else None)
         rec['lark_error'] = None
     except GrammarError as e:
         rec['lark_error'] = str(e)[:200]
@@ -70,7 +78,11 @@ def _case(args):
                     p.parse(text); r['ok'] = True
                 except UnexpectedToken as e:
                     r['ok'] = False; r['err'] = 'UnexpectedToken'; r['tok'] = e.token.type
-                    r['errpos'] = e.token.start_pos if e.token.type != '$END' else len(text)
+                    r['errpos'] = (e.token.start_pos - (100 if shifted and e.token.start_pos >= 100 else 0)) if e.token.type != '$END' else len(text)   # (the contextual lexer raises before the post-lexer)
+                    if e.token.type == '$END':
+                        co = lambda t: [t.start_pos, t.line, t.column, t.end_line, t.end_column, t.end_pos]
+                        fed = list(p.lex(text))
+                        r['end_tok'] = co(e.token); r['last_fed'] = co(fed[-1]) if fed else [0, 1, 1, None, None, None]
                     r['expected'] = sorted(tid[x if x != '<END-OF-FILE>' else '$END'] for x in e.expected if x in tid or x == '<END-OF-FILE>')
                     r['accepts'] = sorted(tid[x] for x in e.accepts if x in tid) if e.accepts is not None else None
                     r['eline'], r['ecol'] = e.line, e.column
@@ -242,5 +254,9 @@ def run(ctx, res, focus='c02'):
                 want = len(r['text']) if m['errorAt'] >= len(r['toks']) else m['errorAt']
                 if r['errpos'] != want:
                     res.violation('UnexpectedToken is not raised at the first token that cannot be consumed', {'grammar': g, 'text': r['text'], 'code_pos': r['errpos'], 'model_pos': want})
+                elif 'end_tok' in r and r['end_tok'] != r['last_fed']:
+                    res.violation('the unexpected $END does not carry the coordinates of the last token fed to the parser',
+                                  {'grammar': g, 'text': r['text'], '$END [start_pos,line,column,end_line,end_column,end_pos]': r['end_tok'], 'last_token_fed': r['last_fed'],
+                                   'note': 'tokens reach the parser through a post-lexer that re-creates them with shifted coordinates' if r['end_tok'][0] < 100 and r['last_fed'][0] >= 100 else ''})
                 elif r.get('accepts') is not None and not (set(r['accepts']) - {ex['terms'].index('$END')}) <= set(r['expected']):   # $END is not a terminal of the grammar (the contextual lexer's set cannot contain it)
                     res.violation('accepts is not a subset of expected', {'grammar': g, 'text': r['text'], 'accepts': r['accepts'], 'expected': r['expected']})
